@@ -323,7 +323,12 @@ func (ps *sparser) typ() *SType {
 		return &SType{Kind: "seq"}
 	}
 	st := &SType{Kind: "name", Name: t.s}
-	// qualified: a.b or a/b.c is not lexable; only a.b
+	// package path: a/b/c.T
+	for ps.isOp("/") {
+		ps.next()
+		n := ps.next()
+		st.Name += "/" + n.s
+	}
 	if ps.isOp(".") {
 		ps.next()
 		n := ps.next()
